@@ -106,6 +106,10 @@ def run(ctx: Ctx):
     ctx.ob("R08.5", "no booking is withdrawn under Project.schedule", repo.func("Project.schedule"), not bad,
            "free slots stay free for good, booked slots stay booked" if not bad else f"bookings can be withdrawn: {bad}",
            key="R08.5|schedule|withdraw")
+    # ---------------------------------------------------------------- R08.6 task identity
+    from .common import local_id_identity_rule
+    local_id_identity_rule(ctx, "R08.6", ("core/project.py", "core/task_scenario.py", "core/task.py"),
+                           "the backward pass then treats one as having the other's successors / deadline")
     ctx.floor("R08.1", 2)
     ctx.floor("R08.3", 7)
     ctx.floor("R08.4", 4)
